@@ -303,7 +303,7 @@ func TestC14aEvidenceSoundness(t *testing.T) {
 				ds, _ := safely(func() ([]*lib.DoubleSigner, lib.ErrorI) { return r.B.ProcessDSE(cloneEv(x)) })
 				for _, d := range ds {
 					if k := s.IdxOf(d.Id); k < 0 || !tr[k] {
-						rt.Fatalf("C14a VIOLATION: replica %d's own evidence names validator %d which did not sign two payloads in view %v\ncase: %s\nschedule: %s", i, k, bs.VOf(x.VoteA.Header), res.Header(), s.Descriptor())
+						rt.Fatalf("C14a VIOLATION: replica %d's own evidence names validator %d which did not sign two payloads in view %v\ncase: %s\nschedule: %s", i, k, bs.VOf(x.VoteA.Header), res.Header(), bs.Wrap(s.Descriptor()))
 					}
 				}
 			}
